@@ -24,6 +24,9 @@ struct CState
    std::set<std::string> armed;                                     // paths whose replay started from a 'c' entry
    std::vector<Sub> subs;
    std::set<std::string> dontCare;                                  // paths this client need not be right about (quiet subscribe, known finding F16)
+   std::set<std::string> owed;                                      // indexed nodes selected by an explicit GETDATA this client just sent (alone, at a quiescent point): the reply must carry their index snapshot
+   int pruneChecks;                                                 // > 0 after this client removed a subscription or sent an explicit query: the next checks prune its mirror first (the server retracts nothing on unsubscribe)
+   CState() : pruneChecks(0) {}
 };
 static std::vector<CState> g_cs; static std::vector<std::string> g_roots;
 static std::vector<std::string> g_quietPrefixes;                    // subtrees touched by quiet sets/removes: don't-care for everybody
@@ -88,7 +91,7 @@ static void Apply(int ci, const Message & m)
    }
 }
 
-struct Stats {bool setThenRemoveInBatch, filterChange, payloadAcrossFilter, departureWhileSubscribed, reorderAfterInserts, indexedRemoval; uint32 checks, comparedNodes, comparedIndices, dontCareSkips; Stats() {memset(this, 0, sizeof(*this));}};
+struct Stats {bool setThenRemoveInBatch, filterChange, payloadAcrossFilter, departureWhileSubscribed, reorderAfterInserts, indexedRemoval; uint32 checks, comparedNodes, comparedIndices, dontCareSkips, requestedSnapshots; Stats() {memset(this, 0, sizeof(*this));}};
 static Stats g_st;
 
 static void Check(World & w, const char * when)
@@ -109,8 +112,21 @@ static void Check(World & w, const char * when)
    for (size_t i=0; i<w.c.size(); i++) if (w.c[i]->connected)
    {
       CState & c = g_cs[i]; const std::string & root = w.c[i]->root;
-      // the client's half of "none extra": drop what no remaining subscription selects (paths and filters, filters evaluated on the mirrored payload)
+      // C13: an index snapshot that was requested has arrived and equals the server's index
+      for (std::set<std::string>::iterator it = c.owed.begin(); it != c.owed.end(); ++it)
       {
+         std::map<std::string, NodeInfo>::iterator tn = tree.find(*it); if ((tn == tree.end())||(tn->second.index.empty())) continue;
+         g_st.comparedIndices++; g_st.requestedSnapshots++;
+         std::string a, b; for (size_t k=0; k<c.idx[*it].size(); k++) a += c.idx[*it][k]+" "; for (size_t k=0; k<tn->second.index.size(); k++) b += tn->second.index[k]+" ";
+         if (c.armed.count(*it) == 0) vf::Fail("(%s) client %zu (%s) asked for %s with GETDATA; the server's index of that node is [%s] but the reply carried no index snapshot (no clear entry): history [%s]", when, i, root.c_str(), it->c_str(), b.c_str(), g_log.c_str());
+         if (c.idx[*it] != tn->second.index) vf::Fail("(%s) client %zu (%s): the index snapshot of %s sent on request is [%s] but the server's index is [%s]: history [%s]", when, i, root.c_str(), it->c_str(), a.c_str(), b.c_str(), g_log.c_str());
+      }
+      c.owed.clear();
+      // the client's half of "none extra": after it removed a subscription it drops what no remaining subscription selects (paths and filters, filters evaluated on the
+      // mirrored payload) -- the server sends no retraction for that.  At any other time a node in the mirror that its subscriptions do not select is the server's doing.
+      if (c.pruneChecks > 0)
+      {
+         c.pruneChecks--; vf::Count("mirror_pruned_after_unsubscribe_or_query");
          std::map<std::string, std::string> keep;
          for (std::map<std::string, std::string>::iterator it = c.mirror.begin(); it != c.mirror.end(); ++it)
          {
@@ -269,6 +285,7 @@ static MessageRef GenCommand(World & w, int who, vf::BS & bs, int depth, bool & 
       {
          if (cs.subs.empty()) return MessageRef();
          MessageRef m = GetMessageFromPool(PR_COMMAND_REMOVEPARAMETERS);
+         cs.pruneChecks = 2;
          if (bs.u8()%5 == 0) {(void) m()->AddString(PR_NAME_KEYS, "SUBSCRIBE:*"); snprintf(buf, sizeof(buf), "c%d UNSUBSCRIBE all", who); Log(buf); cs.subs.clear();}
          else {const size_t k = bs.u8()%cs.subs.size(); (void) m()->AddString(PR_NAME_KEYS, EscapeRegexTokens(String("SUBSCRIBE:")+cs.subs[k].pat.c_str())); snprintf(buf, sizeof(buf), "c%d UNSUBSCRIBE %s", who, cs.subs[k].pat.c_str()); Log(buf); cs.subs.erase(cs.subs.begin()+k);}
          return m;
@@ -284,7 +301,20 @@ static MessageRef GenCommand(World & w, int who, vf::BS & bs, int depth, bool & 
       }
       case 5:   // GETDATA: explicit snapshot request
       {
+         cs.pruneChecks = 2;      // an explicit query returns nodes whether or not a subscription selects them: the client sorts them out like after an unsubscribe
          MessageRef m = GetMessageFromPool(PR_COMMAND_GETDATA); const std::string p = GenSubPath(w, bs); (void) m()->AddString(PR_NAME_KEYS, p.c_str()); snprintf(buf, sizeof(buf), "c%d GETDATA %s", who, p.c_str()); Log(buf);
+         if (depth == 0)
+         {
+            // "the index snapshot the server sends on request": the request goes out alone between two quiescent points, and every indexed node of another session that its key
+            // selects must come back as clear + inserts equal to the server's index.  (Own nodes are documented not to be returned without reflect-to-self; the server makes an
+            // undocumented exception for sessions that used ordered inserts, but not for one whose index came from REORDERDATA, so own nodes cannot be judged either way.)
+            pumpBefore = true; const int wi = who;
+            afterSend.push_back([wi, p, &w]{
+               CState & c = g_cs[wi]; HSession * any = w.AnySession(); std::map<std::string, NodeInfo> tree; if (any) WalkTree(any->Root(), tree);
+               for (std::map<std::string, NodeInfo>::iterator it = tree.begin(); it != tree.end(); ++it)
+                  if ((it->second.index.size())&&(PathMatch(Absolute(p), it->first))&&(IsQuietTouched(it->first) == false)&&(c.dontCare.count(it->first) == 0)&&(Under(it->first, g_roots[wi]) == false)) {c.owed.insert(it->first); c.armed.erase(it->first); c.idx.erase(it->first);}
+            });
+         }
          return m;
       }
       case 6:   // INSERTORDEREDDATA
@@ -357,7 +387,7 @@ extern "C" int vf_run_case(const uint8_t * data, size_t size)
 
    vf::Count("steps", (uint64_t)steps); vf::Count("quiescent_checks", g_st.checks); vf::Count("mirror_nodes_compared", g_st.comparedNodes); vf::Count("index_replays_compared", g_st.comparedIndices); vf::Count("dont_care_skips", g_st.dontCareSkips);
    if (g_st.setThenRemoveInBatch) vf::Count("case_set_then_remove_in_one_batch"); if (g_st.filterChange) vf::Count("case_filter_change_on_existing_subscription"); if (g_st.departureWhileSubscribed) vf::Count("case_departure_while_others_subscribed");
-   if (g_st.reorderAfterInserts) vf::Count("case_with_reorder"); if (g_st.comparedIndices) vf::Count("case_with_armed_index_replay_compared");
+   if (g_st.reorderAfterInserts) vf::Count("case_with_reorder"); if (g_st.comparedIndices) vf::Count("case_with_armed_index_replay_compared"); if (g_st.requestedSnapshots) vf::Count("case_with_requested_index_snapshot_judged");
 #ifdef VF_C13
    const bool nontrivial = (g_st.comparedIndices >= 1)&&((g_st.reorderAfterInserts)||(g_st.indexedRemoval));
 #else
